@@ -142,13 +142,13 @@ def deep_tree(g, kind, n):
 
 def run_shard(rec):
     quick = rec.tier == 'quick'
-    rec.deadline = time.time() + (30 if quick else 240)
+    rec.deadline = time.time() + (30 if quick else 600)
     g = forest.load_module()
     rng = rec.rng
     if rec.shard % 4 == 0:
         for tag, t in hostile_trees(g):
             check_tree(rec, g, t, dict(kind='hostile', tree=tag))
-    n = 4000 if quick else 60000
+    n = 4000 if quick else 600000
     for k in range(n):
         if rec.out_of_time():
             rec.count('cut_by_time')
